@@ -341,6 +341,8 @@ def vectorized_ltf_plan(**args):
     r_map = fs / L_grid
     K_map = np.round((N - L_grid) / (xov * L_grid) + 1).astype(np.int64)
     L_map = L_grid.astype(np.int64)
+    # There are only N - L + 1 distinct segment positions.
+    K_map = np.minimum(K_map, N - L_map + 1)
 
     # --- Phase 2: Walk the map ---
     f_out, r_out, L_out, K_out = [], [], [], []
